@@ -52,7 +52,7 @@ def cases(tier, seed):
                 Ns = {1: list(range(3, 14)) + [32, 33], 2: list(range(3, 12)), 3: list(range(3, 10))}[D]
                 reps = 2
             for N in Ns:
-                for rep in range(reps):
+                for rep in range(reps if name != "stepper.Wave" else reps + 2):        # Wave is one class with few cases: extra repetitions so that every box size of run_case (incl. L = 40 > 4 pi |k|) is reached in every D
                     for v in range(spec["nvar"]):
                         out.append(dict(kind="lin" if name != "stepper.Wave" else "wave", cls=name, D=D, N=N, v=v,
                                         rs=[seed, env.crc(name), D, N, v, rep], cost=N ** D))
